@@ -134,6 +134,8 @@ BUILDS = (
 
 RX_FN = "sercomm_drv_rx_char"
 RX_ALLOC_FN = "sercomm_alloc_msgb"
+HEADROOM_ALLOC = "msgb_alloc_headroom"
+HDR_OCTETS = 2              # address + control octet in front of the payload (the frame format of the property)
 TX_FN = "sercomm_drv_pull"
 RXS = "sercomm.rx.state"
 RXM = "sercomm.rx.msg"
@@ -4288,7 +4290,10 @@ def r13_tx_fold(L, tu, mtu, tag, size):
     octet (every count of octets still to be sent from there down to 0 occurs - the values at which a count kept
     in 8 bits wraps), and the longest payload the property promises (receive size - 1; in the host build every
     count up to 2049), and a message on every DLCI whose handler sercomm_init() registered itself (the echo DLCI;
-    the receiver gets the control octet the transmitter emitted for it).  Required: the handler calls are exactly
+    the receiver gets the control octet the transmitter emitted for it), and messages in buffers a caller made
+    itself with msgb_alloc_headroom() (evaluated) that have exactly the HDR_OCTETS of headroom the address /
+    control header needs, and one more: sercomm_sendmsg() has to queue every message with room for its header
+    (seed c06-27: a guard refusing headroom 2).  Required: the handler calls are exactly
     the messages queued.  Each witness is an input
     of the property's quantifier, so a mismatch is a counterexample; a step the evaluation cannot follow is no
     verdict."""
@@ -4311,7 +4316,11 @@ def r13_tx_fold(L, tu, mtu, tag, size):
     ] + [("message of %d octets (address + control + %d payload octets) followed by a short message" % (n + 2, n),
           [(d1, ramp(n)), (d0, [0x55])]) for n in longest if n < size] + [
         ("message on DLCI %d, whose handler %s() registered itself, between messages on other DLCIs" % (d, INIT_FN),
-         [(d0, [0x42]), (d, [0x41, 0x7E, 0x00]), (d2, [])]) for d in own]
+         [(d0, [0x42]), (d, [0x41, 0x7E, 0x00]), (d2, [])]) for d in own] + [
+        ("messages in buffers from %s() with exactly %d (all the header needs) and %d octets of headroom, then one from %s()"
+         % (HEADROOM_ALLOC, HDR_OCTETS, HDR_OCTETS + 1, RX_ALLOC_FN),
+         [(d1, [0x41, 0x7E], HDR_OCTETS), (d0, [0x00, 0x42, 0x43], HDR_OCTETS + 1), (d2, [0x55])])]
+    nroom = 0
 
     def show(h, d, p):
         body = " ".join("??" if o is None else o if isinstance(o, str) else "%02X" % o for o in p[:8])
@@ -4320,16 +4329,25 @@ def r13_tx_fold(L, tu, mtu, tag, size):
     for title, msgs in witnesses:
         tx = fold_start(TxFold, tu, mtu, (SEND, PULL, RX_ALLOC_FN, "msgb_put"))
         rx = fold_start(RxFold, tu, mtu, (RX_FN, REG))
-        for d in sorted({d for d, _ in msgs} - set(own)):
+        for d in sorted({m[0] for m in msgs} - set(own)):
             if rx.call(REG, [d, ("@", "handler", d)]) != 0:
                 raise AnalysisError("transmit fold: %s(%d, .) refused" % (REG, d))
         pulled = 0
         try:
-            for d, p in msgs:
+            for d, p, *hr in msgs:
                 tx.envs = {}
-                m = tx.call(RX_ALLOC_FN, [len(p)])
+                if hr:
+                    # a caller's own buffer: msgb_alloc_headroom(payload + headroom, headroom, .), evaluated
+                    m = tx.call(HEADROOM_ALLOC, [len(p) + hr[0], hr[0], 0])
+                    if m == ("@", "obj", 0) and tx.obj is not None and tx.call("msgb_headroom", [m]) != hr[0]:
+                        raise AnalysisError("transmit fold: %s(., %d, .) does not leave %d octets of headroom" % (
+                            HEADROOM_ALLOC, hr[0], hr[0]))
+                    nroom += 1
+                else:
+                    m = tx.call(RX_ALLOC_FN, [len(p)])
                 if m != ("@", "obj", 0) or tx.obj is None:
-                    raise AnalysisError("transmit fold: %s(%d) does not arrive at a buffer from %s()" % (RX_ALLOC_FN, len(p), ALLOC_FN))
+                    raise AnalysisError("transmit fold: %s(%d) does not arrive at a buffer from %s()" % (
+                        HEADROOM_ALLOC if hr else RX_ALLOC_FN, len(p), ALLOC_FN))
                 at = tx.call("msgb_put", [m, len(p)])
                 if not (_sym(at) and at[1] == "buf"):
                     raise AnalysisError("transmit fold: msgb_put() of the payload does not return an address of the data area")
@@ -4351,14 +4369,15 @@ def r13_tx_fold(L, tu, mtu, tag, size):
                 # what it produced so far is compared below
         except _Abort as e:
             raise AnalysisError("transmit fold: %s() reached on a witness message" % e)
-        want = [(own.get(d, d), d, tuple(p)) for d, p in msgs]
+        want = [(own.get(m[0], m[0]), m[0], tuple(m[1])) for m in msgs]
         L.ob(R, F, PULL, "transmit fold [%s]: %s -- every message handed to %s() and pulled octet by octet until %s() "
              "is idle reaches the handler of its DLCI exactly once, with its DLCI and payload" % (tag, title, SEND, PULL),
              "; ".join(show(*w) for w in want),
              ("; ".join(show(*g) for g in rx.delivered) or "no handler call") + " (%d octets pulled%s)"
              % (pulled, "".join("; " + n for n in tx.narrowed[:3]) if rx.delivered != want else ""),
              rx.delivered == want, tu.line(tu.func(PULL)))
-    L.floor(R, "witness message lists folded through %s / %s (%s build)" % (SEND, PULL, tag), len(witnesses), 4)
+    L.floor(R, "witness message lists folded through %s / %s (%s build)" % (SEND, PULL, tag), len(witnesses), 5)
+    L.floor(R, "witness messages with just the headroom the header needs (%s build)" % tag, nroom, 2)
 
 
 # ------------------------------------------- C06.R14 fold of the transmitter over interleaved histories
@@ -6009,6 +6028,102 @@ class RxCallerWalk:
             return []
         return rx_irq_switches(self.tu, root, env)
 
+    @staticmethod
+    def base_name(lhs):
+        """name of the variable an lvalue lives in / is reached through (`buf[i]`, `*p`, `s.f` -> buf, p, s)"""
+        n = strip(lhs, casts=True)
+        while n is not None and kind(n) != "DeclRefExpr":
+            ks = kids(n)
+            if kind(n) in ("ArraySubscriptExpr", "MemberExpr") or (kind(n) == "UnaryOperator" and n.get("opcode") == "*"):
+                n = strip(ks[0], casts=True) if ks else None
+            else:
+                return None
+        return None if n is None else n.get("referencedDecl", {}).get("name")
+
+    def writes(self, effs):
+        """names whose value / pointee a list of effects may change (None: cannot tell); calls reach memory
+        through their pointer arguments, functions of this file also through the file's globals ('*globals*')"""
+        out = set()
+        for e in effs:
+            if e[0] in ("store", "compound", "incdec"):
+                out.add(self.base_name(e[1]))
+            elif e[0] == "decl":
+                out.add(e[1].get("name"))
+            elif e[0] == "call":
+                for a in e[2]:
+                    qt = strip(a, casts=True).get("type", {}).get("qualType", "") if strip(a, casts=True) else ""
+                    addr = any(kind(x) == "UnaryOperator" and x.get("opcode") == "&" for x in walk(a))
+                    if addr or "*" in qt or "[" in qt:
+                        out |= {x.get("referencedDecl", {}).get("name") for x in walk(a) if kind(x) == "DeclRefExpr"}
+                cn = strip(kids(e[3])[0], casts=True)
+                cn = cn.get("referencedDecl", {}).get("name") if kind(cn) == "DeclRefExpr" else None
+                if cn is None or cn in self.own:
+                    out.add("*globals*")
+        return out
+
+    def feeds_of(self, node, sites):
+        """[(call, writes evaluated before it in the node)] of the feeding calls a CFG node contains"""
+        root = node.cond if node.kind in ("cond", "switch") else (node.ast if node.kind == "stmt" else None)
+        if root is None or kind(root) == "DoHead":
+            return [], set()
+        effs = effects(root)
+        out = []
+        for i, e in enumerate(effs):
+            if e[0] == "call" and any(e[3] is s for s in sites):
+                out.append((e[3], self.writes(effs[:i]), self.writes(effs[i + 1:])))
+        return out, self.writes(effs)
+
+    def same_octet(self, arg2, written):
+        """True: the argument of a feeding call reached with these names written since the call under study
+        denotes the octet that call was given; False: a later one; None: cannot tell."""
+        arg1 = kids(self.call)[1]
+        if has_write(arg1) or has_write(arg2) or any(kind(x) == "CallExpr" for x in list(walk(arg1)) + list(walk(arg2))):
+            return False        # evaluating the argument itself takes the next octet
+        names = {x.get("referencedDecl", {}).get("name") for a in (arg1, arg2) for x in walk(a) if kind(x) == "DeclRefExpr"}
+        if (names & written) or ("*globals*" in written and (names - self.locals)):
+            return False
+        if None in written:
+            return None
+        if self.tu.fold(arg2) is not None:
+            return None
+        return True if ctext(arg1) == ctext(arg2) else None
+
+    def refeed(self, v, sites):
+        """Ways from the call, taken for the return value v, to the next feeding call of the function (any
+        site): {'same' | 'next' | 'unknown' | 'end'} -> example text."""
+        start = ("call", v, frozenset())
+        mine, _ = self.feeds_of(self.C, sites)
+        after = [w for (c, _, w) in mine if c is self.call]
+        if len(mine) != 1 or not after:
+            raise AnalysisError("%s(): %d feeding calls in one statement -- unclassifiable" % (self.fname, len(mine)))
+        self.mixed = set()
+        states = {start: (self.C, {self.ctxt: v}, frozenset(after[0]))}
+        work, out = [start], {}
+        while work:
+            key = work.pop()
+            node, env, wr = states[key]
+            first = key == start
+            if not first:
+                if node.kind in ("exit", "raise"):
+                    out.setdefault("end", "end of %s()" % self.fname)
+                    continue
+                feeds, allw = self.feeds_of(node, sites)
+                if feeds:
+                    c2, before, _ = feeds[0]
+                    r = self.same_octet(kids(c2)[1], wr | before)
+                    out.setdefault({True: "same", False: "next", None: "unknown"}[r],
+                                   "`%s` (line %s)" % (ctext(c2), self.tu.line(c2)))
+                    continue
+                wr = wr | allw
+            for (s, nenv, dec) in self.succs(node, env, first):
+                k2 = (s.id, tuple(sorted(nenv.items())), wr)
+                if k2 not in states:
+                    if len(states) > 20000:
+                        raise AnalysisError("%s(): too many states behind the call of %s()" % (self.fname, self.callee))
+                    states[k2] = (s, nenv, wr)
+                    work.append(k2)
+        return out
+
     def run(self, v):
         """Walk for the return value v.  Returns (nodes visited, transitions leaving the read loop, texts of the
         conditions that read the result, {mask text: 'must' | 'may'}, values returned by the caller as a function of v)."""
@@ -6069,6 +6184,38 @@ class RxCallerWalk:
         return visited, exits, decided, status, rets
 
 
+def r8_once(L, tu, name, w, c, sites, cvals):
+    """C06.R8 (each octet once) -- decides, for the clauses 'fed octet by octet into a receiver ... delivered
+    ... exactly once each' and 'an over-long frame is discarded ..., costing at most the one frame that follows
+    it', the premise that a caller hands every received octet to sercomm_drv_rx_char() once whatever it
+    returned.  The receive step has consumed the octet on every path (0 = it reset itself to idle with a fresh
+    buffer and counts on the octet being dropped): fed again, a closing flag refused by the overflow test opens
+    a frame of its own, the next frame is parsed shifted by one octet and a follower of maximum length
+    overflows in turn - two frames lost.  The caller's CFG is walked from the call once per value the step
+    really returns (conditions on the result decided for it) up to the next feeding call of the function: when
+    on every such way the argument denotes the octet already fed (same expression, none of its variables nor
+    the memory behind them written in between, no call in it) the octet is passed twice.  Ways of which only
+    some feed it again, or an argument written differently with nothing changed in between, give no verdict."""
+    R = "C06.R8"
+    key = ("every received octet is handed to %s() once, whatever it returns: the next feeding call reached "
+           "from this one is given a later octet" % RXCHAR)
+    vtxt = ", ".join("%d: %s" % (v, cvals[v]) for v in sorted(cvals))
+    bad, unknown = [], []
+    for v in sorted(cvals):
+        out = w.refeed(v, sites)
+        if "same" in out and not (set(out) - {"same"}):
+            bad.append("after return value %d (%s) the octet `%s` is fed again by %s" % (
+                v, cvals[v], ctext(kids(c)[1]), out["same"]))
+        elif "same" in out or "unknown" in out:
+            unknown.append("after return value %d the octet `%s` %s" % (v, ctext(kids(c)[1]), (
+                "is fed again by %s on some of the ways only" % out["same"]) if "same" in out else
+                "and the argument of %s cannot be told apart" % out["unknown"]))
+    if unknown and not bad:
+        raise AnalysisError("%s(): %s -- unclassifiable" % (name, unknown[0]))
+    L.ob(R, tu.rel, name, key, "a later octet after each of {%s}" % vtxt,
+         "; ".join(bad) if bad else "a later octet (or the end of the function) on every way", not bad, tu.line(c))
+
+
 def r8_rx_callers(L, rxvals):
     """C06.R8 -- decides, for the clause 'an over-long frame is discarded ..., costing at most the one frame
     that follows it before reception is back in sync' (and 'fed octet by octet into a receiver ... delivered'
@@ -6124,6 +6271,8 @@ def r8_rx_callers(L, rxvals):
                     w = RxCallerWalk(tu, name, fn, g, c, callee)
                     res = {v: w.run(v) for v in sorted(cvals)}
                     vtxt = ", ".join("%d: %s" % (v, cvals[v]) for v in sorted(cvals))
+                    if callee == RXCHAR:
+                        r8_once(L, tu, name, w, c, sites, cvals)
                     key = ("after every value %s() really returns the receiver is still fed: no way the caller takes "
                            "for such a value switches the receive interrupt off" % callee)
                     req = "receive interrupt left enabled after each of {%s}" % vtxt
